@@ -119,6 +119,9 @@ pub struct AdvState {
     /// random draws, no write - the reference run of the differential check), 2 for real
     pub scribble: u8,
     pub counts: BTreeMap<&'static str, usize>,
+    /// completions the device still performs faithfully before it starts to misbehave (so that
+    /// drivers get past construction / set-up and are attacked in their deeper states as well)
+    pub warmup: u32,
 }
 
 thread_local! {
@@ -194,6 +197,8 @@ impl World {
                 p,
                 scribble,
                 counts: BTreeMap::new(),
+                // a third of the worlds misbehave from the first completion on
+                warmup: if seed % 3 == 0 || p == 0.0 { 0 } else { [4, 12, 30, 80][(seed as usize / 3) % 4] },
             }),
         }
     }
@@ -675,7 +680,7 @@ impl World {
     /// Scatter `data` over the device-writable part; returns bytes written.
     pub fn chain_write(&mut self, q: u16, c: &Chain, data: &[u8]) -> usize {
         // C07: arbitrary response bytes
-        let hit = self.adv.as_mut().map(|a| rand::Rng::gen_bool(&mut a.rng, a.p)).unwrap_or(false);
+        let hit = self.adv.as_mut().map(|a| a.warmup == 0 && rand::Rng::gen_bool(&mut a.rng, a.p)).unwrap_or(false);
         let garbled: Option<Vec<u8>> = match self.adv.as_mut() {
             Some(a) if hit => {
                 use rand::Rng;
@@ -736,7 +741,16 @@ impl World {
 
     pub fn dev_complete(&mut self, q: u16, head: u16, len: u32, wd: Option<String>) {
         use rand::Rng;
-        let roll = self.adv.as_mut().and_then(|a| if a.rng.gen_bool(a.p) { Some(a.rng.gen_range(0..100u32)) } else { None });
+        let roll = self.adv.as_mut().and_then(|a| {
+            if a.warmup > 0 {
+                a.warmup -= 1;
+                None
+            } else if a.rng.gen_bool(a.p) {
+                Some(a.rng.gen_range(0..100u32))
+            } else {
+                None
+            }
+        });
         let Some(roll) = roll else { return self.dev_complete_legit(q, head, len, wd) };
         let (n, used_idx, scribble_ok) = match self.queues.get(&q) {
             Some(r) => (r.n, r.used_idx, self.adv.as_ref().unwrap().scribble > 0),
